@@ -232,7 +232,16 @@ func parseStraceLine(line string, pending map[string]string, fds map[int]*traceF
 			return nil
 		}
 		delete(pending, pid)
-		rest = head + rest[i+len("resumed>"):]
+		// strace pads the tail of a resumed call (`<... openat resumed>)     = 8`):
+		// bring it back to the form of an uninterrupted line (`...) = 8`).
+		tail := strings.TrimLeft(rest[i+len("resumed>"):], " ")
+		if k := strings.Index(tail, ")"); k >= 0 {
+			after := strings.TrimLeft(tail[k+1:], " ")
+			if strings.HasPrefix(after, "= ") {
+				tail = tail[:k+1] + " " + after
+			}
+		}
+		rest = head + tail
 	}
 	if strings.HasPrefix(rest, "+++") || strings.HasPrefix(rest, "---") {
 		return nil
@@ -240,6 +249,12 @@ func parseStraceLine(line string, pending map[string]string, fds map[int]*traceF
 	op := strings.IndexByte(rest, '(')
 	eq := strings.LastIndex(rest, ") = ")
 	if op <= 0 || eq < op {
+		// Nothing is dropped silently: a line that looks like a call but has no
+		// result in the expected place is a parser gap, not a call to skip. (The
+		// first line after the truncation at the start of a run may be cut.)
+		if op > 0 && strings.Contains(rest, ")") && strings.Contains(rest, "= ") && !strings.HasPrefix(rest, "<") {
+			return fmt.Errorf("strace: cannot parse %s", firstN(line, 200))
+		}
 		return nil
 	}
 	name := rest[:op]
